@@ -10,7 +10,9 @@ from .. import core, mm, pymach as pm, sx
 from .c03 import unify_syms
 
 THEOREMS = ['C16.translation_succeeds', 'C16.translation_accepted', 'C16.layout_independent',
-            'C16.exec_proof_translated', 'C16.exec_proof_step_text_is_the_model', 'C16.exec_proof_text_is_the_model']
+            'C16.exec_proof_translated', 'C16.exec_proof_step_text_is_the_model', 'C16.exec_proof_text_is_the_model',
+            'C16.converter_translated', 'C16.converter_text_state', 'C16.converter_text_is_the_model',
+            'C16.translation_text_is_the_model']
 
 
 def image(t, float_order):
@@ -331,6 +333,12 @@ def run(rep):
         x = sx.parse(a)[0]
         if not core.real_checker(unhex(x[1]), unhex(x[2]), unhex(x[3]), tag='c16b'):
             findings.append({'key': 'benchmark:' + b, 'what': f'translated benchmark {b} is rejected by the checker'})
+    # ---- 6. the converter: specification dbOfMDb on the parsed database vs the model database built above from the generator's
+    # knowledge; generated converter (Pi2/Gen/MMConv.lean) vs the real MetamathConverter on every query; hypothesis InFragment
+    from .. import try_conv
+    cf, n_spec, n_conv = try_conv.compare(cases, try_conv.EXTRA)
+    findings += cf
+    rep.coverage.update({'converter_spec_comparisons': n_spec, 'converter_text_comparisons': n_conv})
     rep.coverage.update({
         'evaluations': len(lines) * len(seeds) + len(muts) + n_bench + n_chain, 'distinct_nontrivial': len(set(lines)) + len(muts),
         'rule': 'random databases in fragment F0 (constants, n-ary constructors, \\imp, \\app, axioms, rules with essential hypotheses, '
